@@ -908,8 +908,20 @@ func runC14Case(c *checkCtx, cs c14Case) (out c14Outcome) {
 		survivor.wait(15 * time.Second)
 		if cs.Kind == "peer-fault" && cs.Point == "Handshake" {
 			out.reached = !vex.Exited || vex.Code != 0 || cs.Action == "sever"
-			if len(srep.CensusDiff) > 0 {
-				violate("handshake failed (%s) and left behind: %v", srep.HandshakeErr, srep.CensusDiff)
+			left := srep.CensusDiff
+			if cs.SurvivorRole == "server" {
+				// share memory files are created by the client before the handshake; a client that died (or severed) before the server
+				// learned their names leaves them behind, and the surviving server cannot know them: only its own descriptors and
+				// mappings are judged
+				left = nil
+				for _, l := range srep.CensusDiff {
+					if !strings.HasPrefix(l, "file ") {
+						left = append(left, l)
+					}
+				}
+			}
+			if len(left) > 0 {
+				violate("handshake failed (%s) and left behind: %v", srep.HandshakeErr, left)
 			}
 			if srep.HandshakeMs > 1500+3000 && srep.CanaryLateMs < 200 {
 				violate("handshake with a dying peer took %d ms (InitializeTimeout 1500 ms)", srep.HandshakeMs)
